@@ -2017,6 +2017,7 @@ func (this *decodingTask) decode(res *decodingTaskResult) {
 
 	ed.Dispose()
 	ibs.Close()
+	verifCorrupt(0, this.currentBlockID, buffer[0:preTransformLength])
 
 	if len(this.listeners) > 0 {
 		// Notify after entropy
@@ -2050,6 +2051,7 @@ func (this *decodingTask) decode(res *decodingTaskResult) {
 	}
 
 	decoded = int(oIdx)
+	verifCorrupt(1, this.currentBlockID, data[0:decoded])
 
 	// Verify checksum
 	if this.hasher32 != nil {
